@@ -311,14 +311,18 @@ PROPS = {
         "lines": ['begin', 'read', 'prove', 'finish', 'overlay', 'ocommit', 'otrycommit', 'root', 'odrop', 'sdrop', 'dread',
                   'live', 'val', 'page', 'commit', 'drop', 'dropl', 'pstatus', 'reset', 'seeknode', 'iter'],
         "tags": ['C11', 'C01', 'C02', 'C05'],
-        "runs": DB_SCN(["rejected-overlay-marks-committed"]) + [DB("overlay", 200, 2000, nops=18), DB("general", 60, 600, nops=16), dict(OVL_RUN), dict(DELTA_RUNS[0]), dict(SEEK_RUN)],
+        "runs": DB_SCN(["rejected-overlay-marks-committed"]) + [DB("overlay", 200, 2000, nops=18), DB("general", 60, 600, nops=16), dict(OVL_RUN), dict(DELTA_RUNS[0]), dict(SEEK_RUN),
+                 # F23 (open): a session on a SUPERSEDED overlay chain; plus plain ABA changesets (prepared on r, competing commit rolled back) which must pass
+                 {"cmd": "lockrec-aba", "cases": {"quick": 300, "thorough": 300}, "shards": {"quick": 1, "thorough": 1}, "seed": 1, "corpus": True}],
         "rule": DB_RULE + OVL_RULE + SEEK_RULE + " C11 focus: overlay trees (chains, sibling forks, dropped and committed ancestors), sessions on every live fork, wrong / incomplete / reordered ancestor lists, in-order and out-of-order overlay commits.",
         "trusted_base": API_TB, "assumptions": API_ASSUME,
     },
     "C12": {
         "lines": ['commit', 'trycommit', 'ocommit', 'otrycommit', 'root', 'seqn', 'rollback', 'dread'],
         "tags": ['C12', 'C09', 'C01', 'C02'],
-        "runs": DB_SCN(["stale-nonblocking-then-rollback", "rejected-overlay-marks-committed"]) + [DB("reject", 200, 2000, nops=16), DB("general", 60, 600, nops=16)] + DELTA_RUNS + [dict(PIPE_RUN)],
+        "runs": DB_SCN(["stale-nonblocking-then-rollback", "rejected-overlay-marks-committed"]) + [DB("reject", 200, 2000, nops=16), DB("general", 60, 600, nops=16)] + DELTA_RUNS + [dict(PIPE_RUN),
+                 # plain ABA: changesets prepared on r, a competing commit committed and rolled back, then accepted — must leave the root of the content (the F23 cases of the same run are tagged C11)
+                 {"cmd": "lockrec-aba", "cases": {"quick": 300, "thorough": 300}, "shards": {"quick": 1, "thorough": 1}, "seed": 1, "corpus": True}],
         "rule": DB_RULE + PIPE_RULE + " C12 focus: pairs of changesets on one base committed in both orders and flavours (blocking / non-blocking, session / overlay), rollback in between, non-blocking commits while a session is alive; after every rejected or deferred attempt root, seqn, values and the result of later rollbacks are compared.",
         "trusted_base": API_TB, "assumptions": API_ASSUME,
     },
